@@ -64,7 +64,7 @@ static void drv_setup(int argc, char **argv)
     NA = atoi(argv[0]); MAXN = atoi(argv[1]); FAULTS = atoi(argv[2]); STRAY = atoi(argv[3]);
     if (NA > MAXO || MAXN > 60) exit(64);
 }
-static void drv_header(jb_t *b) { jb_printf(b, "\"na\":%d,\"maxn\":%d", NA, MAXN); }
+static void drv_header(jb_t *b) { jb_printf(b, "\"na\":%d,\"maxn\":%d,\"faults\":%s", NA, MAXN, FAULTS ? "true" : "false"); }
 static void drv_reset(void)
 {
     int i;
